@@ -416,7 +416,7 @@ def mutants(prog):
         r"for anded in ored.ands:\n\1if all(c.evaluate(packet) for c in anded.conditions):")
     sub("and-fold returns at first true", r"if condition\.evaluate\(packet\) is False:\n(\s+)return False",
         r"if condition.evaluate(packet) is True:\n\1return True")
-    sub("and-fold skips nested ors", r"for ored in anded\.ors:\n(\s+)if not _or\(ored\):\n\s+return False\n", "")
+    sub("and-fold skips nested ors", r"for ored in anded\.ors:\n(\s+)if not _or\(ored\):", r"for ored in []:\n\1if not _or(ored):")
     sub("lookup any instead of all", r"if all\(criterion\.evaluate\(packet, current_parsed_value\) for criterion in self\.match_criteria\)",
         "if any(criterion.evaluate(packet, current_parsed_value) for criterion in self.match_criteria)")
     sub("lookup returns truthiness", r"return self\.lookup_value\n", "return self.lookup_value or None\n")
